@@ -1,5 +1,8 @@
 import ClipVerif.Proofs.C01
 import ClipVerif.Proofs.Wind
+import ClipVerif.Proofs.WindIx
+import ClipVerif.Model.Vertex
+import ClipVerif.Proofs.Vertex
 /-
 C01 — boolean operations return the set-theoretic region.  Proved here: the local decisions of the
 sweep (everything the engine *decides* from winding counts); the global composition of the sweep is
@@ -73,6 +76,25 @@ theorem inserted_edge_contributes_iff_separates (ct fr : Nat) (left : List Activ
         (windRight (1 - getPolyType e) left) := by
   exact Proofs.Wind.inserted_edge_contributes_iff_separates ct fr left e hct hfr hwf he hec h0 hok
 
+/-- intersection (`intersectEdges`, closed edges): the invariant "an edge is hot exactly when it is
+    contributing" survives every intersection — whatever action the decision table takes
+    (nothing, local maximum, maximum + minimum, swap of output records, handing the record over,
+    new local minimum), for every clip type and fill rule and winding numbers of any magnitude -/
+theorem intersect_keeps_hot_iff_contributing (ct fr : Nat) (pre : List Active) (e1 e2 : Active)
+    (front1 same : Bool)
+    (hct : ct = 1 ∨ ct = 2 ∨ ct = 3 ∨ ct = 4) (hfr : fr ≤ 3)
+    (hwf : ∀ a ∈ pre, WF a) (h1w : WF e1) (h2w : WF e2)
+    (h1c : isOpen e1 = false) (h2c : isOpen e2 = false)
+    (h1 : EdgeOK fr pre e1) (h2 : EdgeOK fr (pre ++ [e1]) e2) :
+    let r := intersectDecide ct fr e1 e2
+      (clipperBase_isContributingClosed (mkEng ct fr) e1)
+      (clipperBase_isContributingClosed (mkEng ct fr) e2) front1 same
+    r.2.2.2.1 = clipperBase_isContributingClosed (mkEng ct fr) r.1 ∧
+    r.2.2.2.2 = clipperBase_isContributingClosed (mkEng ct fr) r.2.1 := by
+  have _ := hwf
+  exact Proofs.WindIx.intersect_keeps_hot_iff_contributing ct fr pre e1 e2 front1 same hct hfr
+    h1w h2w h1c h2c h1 h2
+
 /-- non-vacuity: a consistent three-edge AEL (subject up, clip up, subject down) under NonZero -/
 example : AelOK 1 []
     [ { windDx := 1, windCount := 1, windCount2 := 0, localMin := { PolyType := 0, IsOpen := false } },
@@ -81,5 +103,39 @@ example : AelOK 1 []
   simp [AelOK, Proofs.Wind.edgeOK_nonEO, Proofs.Wind.windRight_cons, Proofs.Wind.windRight_nil,
     isClosedOf, Proofs.Wind.getPolyType_eq, Proofs.Wind.isOpen_eq, encSides, Spec.encWind]
   decide
+
+/-! ### Vertex rings and local minima (model `Model.vertexRing` of `addPathsToVertexList`, tied by `models-corr vertex`) -/
+
+/-- closed paths: a vertex is flagged LocalMin (8) / LocalMax (4) exactly where the ring turns from
+    descending to ascending / from ascending to descending (plateaus are attributed to their last
+    vertex), and no open-path flag is set -/
+theorem vertexRing_closed_flags (path : List Point64) (r : VRing) (h : vertexRing path false = some r)
+    (i : Nat) (hi : i < r.pts.size) :
+    ((r.flags[i]! &&& 8 ≠ 0) ↔ isLocalMinAt r.ys i = true) ∧
+    ((r.flags[i]! &&& 4 ≠ 0) ↔ isLocalMaxAt r.ys i = true) ∧
+    r.flags[i]! &&& 3 = 0 := by
+  exact Proofs.Vertex.closed_flags path r h i hi
+
+/-- closed paths: the recorded local minima are exactly the vertices flagged LocalMin, each once -/
+theorem vertexRing_closed_minima (path : List Point64) (r : VRing) (h : vertexRing path false = some r) :
+    r.minima.Nodup ∧ ∀ i, i ∈ r.minima ↔ (i < r.pts.size ∧ r.flags[i]! &&& 8 ≠ 0) := by
+  exact Proofs.Vertex.closed_minima path r h
+
+/-- closed paths: the ring has as many local minima as local maxima, and at least one -/
+theorem vertexRing_closed_balanced (path : List Point64) (r : VRing) (h : vertexRing path false = some r) :
+    ((List.range r.pts.size).filter (fun i => r.flags[i]! &&& 8 != 0)).length =
+      ((List.range r.pts.size).filter (fun i => r.flags[i]! &&& 4 != 0)).length ∧
+    1 ≤ r.minima.length := by
+  exact Proofs.Vertex.closed_balanced path r h
+
+/-- the ring is the input with consecutive duplicates (and an explicit closing vertex) removed:
+    at least two vertices, no two cyclically consecutive vertices equal, not all at one height -/
+theorem vertexRing_closed_shape (path : List Point64) (r : VRing) (h : vertexRing path false = some r) :
+    2 ≤ r.pts.size ∧ r.flags.size = r.pts.size ∧
+    (∀ i, i < r.pts.size → r.pts[i]! ≠ r.pts[(i + 1) % r.pts.size]!) ∧
+    (∃ i, i < r.pts.size ∧ r.pts[i]!.Y ≠ r.pts[0]!.Y) ∧
+    r.pts.toList.Sublist path := by
+  exact Proofs.Vertex.closed_shape path r h
+
 
 end C01
